@@ -6,6 +6,7 @@
                             the spread operator, escape table of `lex_string!`, raw tag names,
                             bool keywords, `Debug` names of the payload-free tokens
   tera/src/parsing/parser.rs `eoi()`: which fields of the span it overwrites
+  tera/src/utils.rs `Span::expand`: translated statement by statement
   tera/src/tera.rs `set_delimiters`: order of validation and assignment
 into lean/TeraModel/Generated/LexTables.lean.  Raises when a shape is not recognised.
 """
@@ -130,6 +131,24 @@ def generate(repo):
     if n_assign != int(eoi_line) + int(eoi_col) + int(eoi_range):
         raise ValueError("parser.rs eoi(): unrecognised assignment to the span")
 
+    # ---- utils.rs Span::expand: translated statement by statement into a Lean function
+    us = read(repo, "tera/src/utils.rs")
+    m_exp = re.search(r"fn expand\(&mut self, other: &Span\) \{(.*?)\n    \}", us, re.S)
+    if not m_exp:
+        raise ValueError("utils.rs Span::expand not recognised")
+    lean_field = {"start_line": "startLine", "start_col": "startCol", "end_line": "endLine", "end_col": "endCol"}
+    expand_steps = []
+    for stmt in [x.strip() for x in m_exp.group(1).split(";") if x.strip()]:
+        m1 = re.fullmatch(r"self\.(\w+)\s*=\s*(self|other)\.(\w+)", stmt)
+        m2 = re.fullmatch(r"self\.range\s*=\s*(self|other)\.range\.(start|end)\s*\.\.\s*(self|other)\.range\.(start|end)", stmt)
+        if m1 and m1.group(1) in lean_field and m1.group(3) in lean_field:
+            expand_steps.append(f"{lean_field[m1.group(1)]} := {'s' if m1.group(2) == 'self' else 'other'}.{lean_field[m1.group(3)]}")
+        elif m2:
+            side = lambda w, e: ("s" if w == "self" else "other") + (".rangeStart" if e == "start" else ".rangeEnd")  # noqa: E731
+            expand_steps.append(f"rangeStart := {side(m2.group(1), m2.group(2))}, rangeEnd := {side(m2.group(3), m2.group(4))}")
+        else:
+            raise ValueError(f"utils.rs Span::expand: unrecognised statement {stmt!r}")
+
     # ---- tera.rs set_delimiters: is the new set validated BEFORE it is stored?
     tr = read(repo, "tera/src/tera.rs")
     m_sd = re.search(r"pub fn set_delimiters\(&mut self, delimiters: Delimiters\) -> TeraResult<\(\)> \{(.*?)\n    \}", tr, re.S)
@@ -169,6 +188,10 @@ def generate(repo):
     out.append(f"def eoiMovesLine : Bool := {str(eoi_line).lower()}")
     out.append(f"def eoiMovesCol : Bool := {str(eoi_col).lower()}")
     out.append(f"def eoiCollapsesRange : Bool := {str(eoi_range).lower()}")
+    out.append("")
+    out.append("/-- utils.rs `Span::expand(&mut self, other)`, one record update per Rust statement, in order -/")
+    out.append("def spanExpand (self other : Lexer.Span) : Lexer.Span :=\n" +
+               "".join(f"  let s : Lexer.Span := {{ {'self' if i == 0 else 's'} with {st} }}\n" for i, st in enumerate(expand_steps)) + "  s")
     out.append("")
     out.append("/-- tera.rs `set_delimiters`: `delimiters.validate()?` comes before `self.delimiters = delimiters` -/")
     out.append(f"def setDelimsValidatesFirst : Bool := {str(set_delims_validates_first).lower()}")
